@@ -30,6 +30,7 @@ type cspec struct {
 	blob    []byte
 	parents []pref
 	changed bool
+	foreign bool // same tree, same parents (by position), but written as another commit (other author, committer and time)
 }
 
 // pref is a parent: index of another commit of the spec (idx >= 0) or a literal hash.
@@ -75,7 +76,11 @@ func (sp *spec) materialize(g *raw, s *Seed) (string, error) {
 	out := make([]string, len(sp.commits))
 	for i := range sp.commits {
 		c := &sp.commits[i]
-		same := !c.changed
+		var orig *Commit // nil for a commit appended to the seed's history
+		if i < len(s.Commits) {
+			orig = &s.Commits[i]
+		}
+		same := !c.changed && !c.foreign && orig != nil
 		var parents []string
 		for j, p := range c.parents {
 			h := p.hash
@@ -86,16 +91,16 @@ func (sp *spec) materialize(g *raw, s *Seed) (string, error) {
 				h = out[p.idx]
 			}
 			parents = append(parents, h)
-			if same && (j >= len(s.Commits[i].Parents) || s.Commits[i].Parents[j] != h) {
+			if same && (j >= len(orig.Parents) || orig.Parents[j] != h) {
 				same = false
 			}
 		}
-		if same && len(parents) == len(s.Commits[i].Parents) {
+		if same && len(parents) == len(orig.Parents) {
 			out[i] = c.like
 			continue
 		}
 		tree := append([]Entry{}, c.tree...)
-		if !bytes.Equal(c.blob, s.Commits[i].Blob) {
+		if orig == nil || !bytes.Equal(c.blob, orig.Blob) {
 			bh, err := g.blob(c.blob)
 			if err != nil {
 				return "", err
@@ -111,13 +116,42 @@ func (sp *spec) materialize(g *raw, s *Seed) (string, error) {
 		if err != nil {
 			return "", err
 		}
-		h, err := g.commit(c.like, th, parents)
+		var h string
+		if c.foreign {
+			h, err = g.commitForeign(c.like, th, parents)
+		} else {
+			h, err = g.commit(c.like, th, parents)
+		}
 		if err != nil {
 			return "", err
 		}
 		out[i] = h
 	}
 	return out[sp.head], nil
+}
+
+// appendVersion adds one more commit on top of the head: the head's version with another name
+// (a valid next version of the identity).
+func (sp *spec) appendVersion(name string, foreign bool) error {
+	last := sp.commits[sp.head]
+	doc, err := parseJSON(last.blob)
+	if err != nil {
+		return err
+	}
+	set := false
+	for i, k := range doc.Keys {
+		if k == "name" {
+			doc.Vals[i] = rawNode(`"` + name + `"`)
+			set = true
+		}
+	}
+	if !set {
+		return fmt.Errorf("version without a name")
+	}
+	sp.commits = append(sp.commits, cspec{like: last.like, tree: append([]Entry{}, last.tree...), blob: doc.bytes(),
+		parents: []pref{{idx: sp.head}}, changed: true, foreign: foreign})
+	sp.head = len(sp.commits) - 1
+	return nil
 }
 
 var reIndex = regexp.MustCompile(`\[\d+\]`)
@@ -372,6 +406,20 @@ func Catalogue(m *Meta, s *Seed) []Mut {
 		add(Mut{Class: "craft/two-creates-concurrent-equal-clocks", Commit: -1, Op: "craft", Arg: "creates-tie:a"})
 		add(Mut{Class: "craft/two-creates-concurrent-equal-clocks", Commit: -1, Op: "craft", Arg: "creates-tie:b"})
 	}
+	// --- identities: a foreign commit chain over byte-identical version blobs (the versions the
+	// victim has, re-committed by somebody else: other commit hashes, other root)
+	if s.Kind == "identity" {
+		n := len(s.Commits)
+		add(Mut{Class: "recommit/all-versions-recommitted-plus-one-new", Commit: -1, Op: "recommit", Arg: "0+new"})
+		add(Mut{Class: "recommit/all-versions-recommitted-nothing-new", Commit: -1, Op: "recommit", Arg: "0"})
+		for k := 1; k < n; k++ {
+			add(Mut{Class: "recommit/first-versions-recommitted-then-a-different-version", Commit: -1, Op: "recommit", Arg: fmt.Sprintf("0-%d+diff", k)})
+			add(Mut{Class: "recommit/genuine-first-commits-then-recommitted-plus-one-new", Commit: -1, Op: "recommit", Arg: fmt.Sprintf("%d+new", k)})
+			add(Mut{Class: "recommit/genuine-first-commits-then-recommitted-nothing-new", Commit: -1, Op: "recommit", Arg: fmt.Sprintf("%d", k)})
+		}
+		// for comparison: the genuine chain plus one new version (a true fast-forward)
+		add(Mut{Class: "recommit/genuine-chain-plus-one-new", Commit: -1, Op: "recommit", Arg: fmt.Sprintf("%d+new", n)})
+	}
 	if s.Kind == "bug" {
 		add(Mut{Class: "history/every-pack-empty", Commit: -1, Op: "all-packs-empty"})
 		add(Mut{Class: "history/root-only-empty-pack", Commit: -1, Op: "root-only-empty"})
@@ -544,6 +592,34 @@ func Build(g *raw, m *Meta, mu Mut) (*built, error) {
 			if mu.Op == "root-only-empty" {
 				sp.head = 0
 				break
+			}
+		}
+	case "recommit":
+		// Arg: "<from>[-<until>][+new|+diff]": commits from index <from> on (up to <until>,
+		// exclusive; default all) are written again as other commits over the same blobs;
+		// +new appends a valid next version, +diff replaces what follows <until> by a different version
+		what, tail, _ := strings.Cut(mu.Arg, "+")
+		fromS, untilS, hasUntil := strings.Cut(what, "-")
+		from, until := 0, len(sp.commits)
+		fmt.Sscanf(fromS, "%d", &from)
+		if hasUntil {
+			fmt.Sscanf(untilS, "%d", &until)
+		}
+		if until < len(sp.commits) {
+			sp.commits = sp.commits[:until]
+			sp.head = until - 1
+		}
+		for i := from; i < len(sp.commits); i++ {
+			sp.commits[i].foreign = true
+		}
+		switch tail {
+		case "new":
+			if err := sp.appendVersion("Mallory was here", from < len(sp.commits)); err != nil {
+				return nil, err
+			}
+		case "diff":
+			if err := sp.appendVersion("A different next version", true); err != nil {
+				return nil, err
 			}
 		}
 	case "craft":
